@@ -721,7 +721,11 @@ impl KotoVm {
 
         match op {
             WriteOp::IndexAssign => {
-                self.run_index_assign(container_register, container_register, write_arg_register)?
+                self.run_index_assign(
+                    container_register,
+                    write_arg_register,
+                    write_value_register,
+                )?
             }
             WriteOp::AccessAssign => {
                 self.run_access_assign(
